@@ -1654,11 +1654,26 @@ where
                     });
                 }
 
-                entry.size = new_entry_size;
-                let entry_ptr = EntryPtr::new(entry as *mut Entry<K, V>);
-                self.current_size += diff;
-                self.touch_ptr(entry_ptr);
-                self.eject_to_target(max_size);
+                let mut entry_ptr = EntryPtr::new(entry as *mut Entry<K, V>);
+
+                if let Some(grown_size) = self.current_size.checked_add(diff) {
+                    entry_ptr.get_mut().size = new_entry_size;
+                    self.current_size = grown_size;
+                    self.touch_ptr(entry_ptr);
+                    self.eject_to_target(max_size);
+                }
+                else {
+                    // The grown total does not fit into a usize (max_size may
+                    // be as large as usize::MAX), the total after ejecting
+                    // does: make room first. The touched entry is the
+                    // most-recently-used one and new_entry_size <= max_size,
+                    // so it is never ejected itself.
+
+                    self.touch_ptr(entry_ptr);
+                    self.eject_to_target(max_size - diff);
+                    entry_ptr.get_mut().size = new_entry_size;
+                    self.current_size += diff;
+                }
             }
             else {
                 // The operation was non-expanding; everything is ok.
